@@ -13,6 +13,8 @@ for pid in ids:
     spec = importlib.util.spec_from_file_location("p", f); P = importlib.util.module_from_spec(spec); spec.loader.exec_module(P)
     if getattr(P, "NOT_APPLICABLE", None):
         na.append(dict(property_id=pid, reason=P.NOT_APPLICABLE)); continue
+    if getattr(P, "WIP", False):
+        na.append(dict(property_id=pid, reason="check under construction (Lean model + harness exist but are not yet quiet/complete); see DESIGN.md section 6")); continue
     checks.append(dict(
         property_id=pid,
         quick_cmd="python3 check/check.py %s --tier quick" % pid,
